@@ -132,6 +132,18 @@ func with(m map[string]int, kv ...interface{}) map[string]int {
 	return r
 }
 
+// refreshJoinJob: explicit Refresh calls (and a Get) racing on one key — shared by C08 (joining) and C11 (one result per call).
+func refreshJoinJob(prefix, tier string) *Job {
+	rp := 1
+	if tier == "thorough" {
+		rp = 2
+	}
+	j := mk(sprintf("%s.refresh_join.pre%d", prefix, rp), rootPkg, "ZZ_C08_RefreshJoin", map[string]int{"canary": 0},
+		func(b *Bounds) { b.Unwind = 60; b.Preempt = rp; b.Race = true; b.MaxPaths = 8000000; b.MaxWallS = 3000 })
+	j.Labels = []string{"c08j.exactly_one_result_per_refresh_call", "c08j.no_inflight_record_left"}
+	return j
+}
+
 func init() {
 	registry["C12"] = func(tier string) []*Job {
 		var js []*Job
@@ -191,6 +203,23 @@ func init() {
 		}
 		for _, c := range []seqCfg{{"bse_writing_max10", 2, 0, 1, 10}, {"bse_accessing_max2", 3, 0, 1, 2}} {
 			js = append(js, mk("c03.sync."+c.name, rootPkg, "ZZ_C03_Sync", with(cfgParams(c.exp, c.ref, c.bound, c.max, 0, 0), "steps", 1), func(b *Bounds) { b.Unwind = 70 }))
+		}
+		// the clock crosses a deadline while an iteration is in progress (symbolic clock, symbolic durations)
+		iexps := []int{2}
+		if tier == "thorough" {
+			iexps = []int{1, 2, 3, 4}
+		}
+		for _, exp := range iexps {
+			nk := 2
+			j := mk(sprintf("c03.iter_advancing.%s.k%d", expNames[exp], nk), rootPkg, "ZZ_C03_IterAdvancing",
+				with(cfgParams(exp, 0, 0, 10, 1, 0), "nkeys", nk), func(b *Bounds) { b.Unwind = 8 })
+			j.Labels = []string{"c03i.second_yield_reached", "c03i.iter.never_yields_an_entry_whose_deadline_has_been_reached"}
+			js = append(js, j)
+		}
+		if tier == "thorough" {
+			j := mk("c03.iter_advancing.writing.k3", rootPkg, "ZZ_C03_IterAdvancing",
+				with(cfgParams(2, 0, 0, 10, 1, 0), "nkeys", 3), func(b *Bounds) { b.Unwind = 8 })
+			js = append(js, j)
 		}
 		// over schedules: two threads, one operation each (loader-backed Get and cancelled computations included), on a key
 		// whose entry has expired but has not been swept: no result may contain the dead value (it is absent in the
@@ -455,6 +484,7 @@ func init() {
 			js = append(js, mk("c11.bulk.r_custom.def0", rootPkg, "ZZ_C11_Bulk", cfgParams(0, 3, 0, 0, 0, 0), func(b *Bounds) { b.Unwind = 12; b.MapOrders = 2 }))
 		}
 		js = append(js, mk("c11.manual.norefresh", rootPkg, "ZZ_C11_Manual", cfgParams(2, 0, 0, 0, 1, 0), func(b *Bounds) { b.Unwind = 12 }))
+		js = append(js, refreshJoinJob("c11", tier))
 		j := mk("c11.canary", rootPkg, "ZZ_C11_Get", with(cfgParams(0, 2, 0, 0, 1, 0), "canary", 1), func(b *Bounds) { b.Unwind = 12 })
 		j.Canary = "c11.canary"
 		return append(js, j)
@@ -748,6 +778,7 @@ func init() {
 		}
 		js = append(js, mk(sprintf("c08.retry_after_failure.pre%d", rp), rootPkg, "ZZ_C08_Retry", nil,
 			func(b *Bounds) { b.Unwind = 60; b.Preempt = rp; b.Race = true; b.MaxPaths = 8000000; b.MaxWallS = 3000 }))
+		js = append(js, refreshJoinJob("c08", tier))
 		c := mk("c08.canary", rootPkg, "ZZ_C08_SingleFlight", map[string]int{"callers": 2, "canary": 1}, func(b *Bounds) { b.Unwind = 60; b.Preempt = 0; b.Race = true })
 		c.Canary = "c08.canary"
 		return append(js, c)
